@@ -148,7 +148,9 @@ def length (i : S1 α) : α :=
   if (zero : α) ≤ l then l
   else
     let l := add l twoPi
-    if (zero : α) < l then l else negOne
+    if (zero : α) < l then l
+    else if i.isEmpty then negOne
+    else zero
 
 /-- assumes p ∈ (-π, π] -/
 def fastContains (i : S1 α) (p : α) : Bool :=
@@ -222,10 +224,16 @@ def addPoint (i : S1 α) (p : α) : S1 α :=
     else if positiveDistance p i.lo < positiveDistance i.hi p then ⟨p, i.hi⟩
     else ⟨i.lo, p⟩
 
-/-- the common tail of `Expanded` -/
-def expandedTail (i : S1 α) (margin : α) : S1 α :=
+/-- the common tail of `Expanded` up to and including the `result.Lo <= -π → π` normalisation -/
+def expandedRaw (i : S1 α) (margin : α) : S1 α :=
   let result := fromEndpoints (rem2pi (sub i.lo margin)) (rem2pi (add i.hi margin))
   if result.lo ≤ (negPi : α) then ⟨pi, result.hi⟩ else result
+
+/-- … followed by the check added by repair 636e942: an expansion (margin ≥ 0) whose computed endpoints
+    passed each other (so that the result no longer contains the original) becomes Full -/
+def expandedTail (i : S1 α) (margin : α) : S1 α :=
+  let result := expandedRaw i margin
+  if decide ((zero : α) ≤ margin) && !result.containsInterval i then full else result
 
 def expanded (i : S1 α) (margin : α) : S1 α :=
   if (zero : α) ≤ margin then
